@@ -29,6 +29,10 @@ def guarded(a):
 def run_guarded(body, timeout=120):
     """run `body` (python source using guarded()) in a fresh process of the scratch build; returns (signal or 0, output)"""
     code = PRELUDE + textwrap.dedent(body)
-    r = subprocess.run([sys.executable, "-c", code], stdout=subprocess.PIPE, stderr=subprocess.STDOUT, text=True, timeout=timeout,
-                       env=dict(os.environ))
+    env = dict(os.environ)
+    bp = env.get("VERIF_BUILD_PATH")
+    if bp:
+        # the scratch build of the tree under test, not the editable install of /repo
+        code = f"import sys; sys.path.insert(0, {bp!r})\n" + code + "\nimport pyunicorn; assert pyunicorn.__file__.startswith(%r), pyunicorn.__file__\n" % bp
+    r = subprocess.run([sys.executable, "-c", code], stdout=subprocess.PIPE, stderr=subprocess.STDOUT, text=True, timeout=timeout, env=env)
     return (-r.returncode if r.returncode < 0 else 0), r.stdout[-1500:], r.returncode
